@@ -30,12 +30,12 @@ class _ConstRight(ast.NodeTransformer):
 
 
 class Module(object):
-    def __init__(self, name, relpath, source, is_pkg):
+    def __init__(self, name, relpath, source, is_pkg, tree=None):
         self.name = name
         self.relpath = relpath
         self.source = source
         self.is_pkg = is_pkg
-        self.tree = _ConstRight().visit(ast.parse(source, filename=relpath))
+        self.tree = _ConstRight().visit(tree if tree is not None else ast.parse(source, filename=relpath))
         self.sha = hashlib.sha256(source.encode('utf8')).hexdigest()[:16]
         self.imports = {}     # local name -> dotted target
         self.defs = {}        # top-level name -> node (last definition wins)
@@ -391,6 +391,7 @@ class Index(object):
         base = os.path.join(self.root, PKG)
         if not os.path.isdir(base):
             raise AnalysisError('package directory %s not found' % base)
+        parsed = []
         for dirpath, dirnames, filenames in os.walk(base):
             dirnames[:] = sorted(d for d in dirnames if d not in ('tests', '__pycache__'))
             for fn in sorted(filenames):
@@ -409,9 +410,21 @@ class Index(object):
                     with open(full, encoding='utf8') as fh:
                         src = fh.read()
                 try:
-                    self.modules[name] = Module(name, rel, src, is_pkg)
+                    parsed.append((name, rel, src, is_pkg, ast.parse(src, filename=rel)))
                 except SyntaxError as exc:
                     raise AnalysisError('cannot parse %s: %s' % (rel, exc))
+        # private functions that were only renamed are read under the name the rules know (sa/fingerprint.py)
+        self.renamed = {}
+        if self.known_functions is not None and not os.environ.get('VERIF_NO_RENAME_RECOVERY'):
+            from . import fingerprint as fp
+            known = fp.load_known(os.path.join(os.path.dirname(os.path.abspath(__file__)), 'known_fingerprints.txt'))
+            if known:
+                self.renamed = fp.recover_renames({n: t for n, r, s_, p, t in parsed}, known)
+                if self.renamed:
+                    for n, r, s_, p, t in parsed:
+                        fp.Renamer(self.renamed).visit(t)
+        for name, rel, src, is_pkg, tree in parsed:
+            self.modules[name] = Module(name, rel, src, is_pkg, tree=tree)
         for m in self.modules.values():
             for node in m.defs.values():
                 if isinstance(node, ast.ClassDef):
